@@ -63,13 +63,34 @@ def build_file(case):
     return raw, d
 
 
-def script_of(raw, fmt, bufsize):
+def short_len(pos, asked, seed):
+    """length of the (legal) short read a raw stream returns at file position `pos` when asked for `asked` bytes:
+    deterministic in the position, so that the same blocks come back after a rewind"""
+    h = (pos * 2654435761 + seed * 40503 + 12345) % (1 << 32)
+    cap = [1, 7, 100, 4993, asked, asked][h % 6]
+    return 1 + (h >> 5) % max(1, min(asked, cap))
+
+
+def split_blocks(raw, bufsize, short_seed=None):
+    """the raw blocks _fp.read(bufsize) hands out: full blocks for a regular file, any non-empty prefixes for a
+    raw stream with short reads"""
+    if short_seed is None:
+        return [raw[i:i + bufsize] for i in range(0, len(raw), bufsize)]
+    blocks, p = [], 0
+    while p < len(raw):
+        k = short_len(p, bufsize, short_seed)
+        blocks.append(raw[p:p + k])
+        p += len(blocks[-1])
+    return blocks
+
+
+def script_of(raw, fmt, bufsize, short_seed=None):
     """Feed the file in `bufsize` blocks to a fresh decompressobj, the way _fill_buffer does, and
     record what comes out: the script of the Coq model.  Returns
     {"lens": [output length per stream block], "complete": bool, "unused": int, "extra": [raw lens]}
     and the list of output blocks."""
     d = zlib.decompressobj(WBITS[fmt])
-    blocks = [raw[i:i + bufsize] for i in range(0, len(raw), bufsize)]
+    blocks = split_blocks(raw, bufsize, short_seed)
     outs = []
     k = 0
     while k < len(blocks) and not d.eof:
